@@ -37,7 +37,7 @@ void tickit_bindings_run_event(struct TickitBindings *bindings, void *owner, int
   bindings->is_iterating = true;
 
   for(struct TickitBinding *bind = bindings->first; bind; bind = bind->next)
-    if(bind->evindex == evindex) {
+    if(bind->evindex == evindex && bind->id != BINDING_ID_TOMBSTONE) {
       TickitEventFlags flags = TICKIT_EV_FIRE;
       if(bind->flags & TICKIT_BIND_ONESHOT) {
         flags |= TICKIT_EV_UNBIND;
@@ -63,8 +63,14 @@ int tickit_bindings_run_event_whilefalse(struct TickitBindings *bindings, void *
   int ret = 0;
 
   for(struct TickitBinding *bind = bindings->first; bind; bind = bind->next)
-    if(bind->evindex == evindex) {
-      ret = (*bind->fn)(owner, TICKIT_EV_FIRE, info, bind->data);
+    if(bind->evindex == evindex && bind->id != BINDING_ID_TOMBSTONE) {
+      TickitEventFlags flags = TICKIT_EV_FIRE;
+      if(bind->flags & TICKIT_BIND_ONESHOT) {
+        flags |= TICKIT_EV_UNBIND;
+        bind->id = BINDING_ID_TOMBSTONE;
+        bindings->needs_delete = true;
+      }
+      ret = (*bind->fn)(owner, flags, info, bind->data);
       if(ret)
         goto exit;
     }
